@@ -794,6 +794,18 @@ class Engine:
             if a.prefix and b.prefix:
                 return Seq(elems, If(c, a.n, b.n), a.ety)
             return Seq(elems, None, a.ety, pres=[If(c, p, q) for p, q in zip(a.pres, b.pres)])
+        if isinstance(a, Seq) and isinstance(b, Seq):
+            # different capacities and at least one side not a prefix sequence (e.g. a collected filter): pad the
+            # shorter side with absent slots
+            k = max(len(a.elems), len(b.elems))
+            pa = list(a.pres) + [False] * (k - len(a.pres))
+            pb = list(b.pres) + [False] * (k - len(b.pres))
+            elems = []
+            for i in range(k):
+                x = a.elems[i] if i < len(a.elems) else None
+                y = b.elems[i] if i < len(b.elems) else None
+                elems.append(self.merge(c, x, y) if (x is not None and y is not None) else (x if x is not None else y))
+            return Seq(elems, None, a.ety or b.ety, pres=[If(c, p, q) for p, q in zip(pa, pb)])
         if isinstance(a, Clo) and isinstance(b, Clo) and a.key == b.key:
             return Clo(a.key, [self.merge(c, x, y) for x, y in zip(a.caps, b.caps)])
         if isinstance(a, Opaque) or isinstance(b, Opaque):
